@@ -165,6 +165,7 @@ func vh_C07_L3_receiver_skip_exact() {
 	want := 1
 	if withBefore {
 		want = 2
+		vassert(r.isReadable(), "a complete unread message below the skip point keeps the queue readable (its reader is woken)")
 	}
 	vassert(r.getNumBytes() == want, "the partially received abandoned message is dropped, nothing else")
 	buf := make([]byte, 4)
@@ -189,5 +190,92 @@ func vh_C07_L3_receiver_skip_exact() {
 		vassert(r.nextSSN == next16+d16+2, "a stale skip does not move the cursor back")
 	}
 	vobserve("d", uint64(d16))
+	vcover("end")
+}
+
+// C07.L2b: an I-FORWARD-TSN that skips an unordered and an ordered message of the same
+// stream lists both, each with its own message identifier (the two identifier spaces are
+// independent: any relation between the two numbers).
+func vh_C07_L2_iforward_tsn_ordered_and_unordered_entries() {
+	vStub("setNewRTT")
+	a, _ := vNewAssocOpts(vAssocOpts{interleaving: true})
+	a.useForwardTSN, a.useIForwardTSN = false, true
+	s1, _ := a.OpenStream(1, PayloadTypeWebRTCBinary)
+	u0, o0 := nondetU32(), nondetU32()
+	s1.nextUnorderedMID, s1.nextOrderedMID = u0, o0
+	unorderedFirst := vPick(2) == 1
+	s1.SetReliabilityParams(unorderedFirst, ReliabilityTypeRexmit, 0)
+	_, werr := s1.WriteSCTP(make([]byte, 1), PayloadTypeWebRTCBinary)
+	vassert(werr == nil, "write accepted")
+	s1.SetReliabilityParams(!unorderedFirst, ReliabilityTypeRexmit, 0)
+	_, werr = s1.WriteSCTP(make([]byte, 2), PayloadTypeWebRTCBinary)
+	vassert(werr == nil, "write accepted")
+	a.cwnd, a.rwnd = 1<<20, 1<<20
+	budget, consumed := int64(0), false
+	a.lock.Lock()
+	chunks, _ := a.popPendingDataChunksToSend(&budget, &consumed)
+	a.lock.Unlock()
+	vassert(len(chunks) == 2, "two chunks in flight")
+	for _, c := range chunks {
+		c.setAbandoned(true)
+		c.setAllInflight()
+	}
+	base := a.cumulativeTSNAckPoint
+	vassert(vDeliver(a, &chunkSelectiveAck{cumulativeTSNAck: base, advertisedReceiverWindowCredit: 1 << 20}) == nil, "SACK ok")
+	vassert(a.advancedPeerTSNAckPoint == base+2 && a.willSendForwardTSN, "both abandoned messages are to be skipped")
+	var fwd *chunkIForwardTSN
+	for _, raw := range vWriterWake(a) {
+		p := vDecode(raw)
+		for _, c := range p.chunks {
+			if x, ok := c.(*chunkIForwardTSN); ok {
+				fwd = x
+			}
+		}
+	}
+	vassert(fwd != nil, "the I-FORWARD-TSN goes out")
+	if fwd == nil {
+		return
+	}
+	vassert(fwd.newCumulativeTSN == base+2, "it carries the advanced ack point")
+	gotU, gotO := false, false
+	for _, e := range fwd.streams {
+		vassert(e.identifier == 1, "only the stream concerned is named")
+		if e.unordered {
+			vassert(!gotU && e.messageIdentifier == u0, "the skipped unordered message is listed once with its identifier")
+			gotU = true
+		} else {
+			vassert(!gotO && e.messageIdentifier == o0, "the skipped ordered message is listed once with its identifier")
+			gotO = true
+		}
+	}
+	vassert(gotU && gotO, "the ordered and the unordered skipped message of one stream are both listed")
+	vcover("end")
+}
+
+// C07.L4: a skip spares what follows it. Fragments of a reliable unordered message that sit
+// right after the abandoned TSN and have already arrived survive the FORWARD-TSN (also
+// when the receiver can advance its cumulative point over them at once); when the last
+// fragment arrives the message is delivered intact.
+func vh_C07_L4_skip_spares_following_fragments() {
+	a, _ := vNewAssoc()
+	a.useForwardTSN = true
+	cum := a.peerLastTSN()
+	nfrag := 2 + vPick(2) // fragments of the live message: the last one arrives after the skip
+	m := vMakeMsg(5, false, true, 0, 0, cum+2, nfrag, PayloadTypeWebRTCString)
+	for i := 0; i < nfrag-1; i++ {
+		vassert(vDeliver(a, m.chunks[i]) == nil, "DATA ok")
+	}
+	fwd := &chunkForwardTSN{newCumulativeTSN: cum + 1} // TSN cum+1 was abandoned by the sender
+	vassert(vDeliver(a, fwd) == nil, "FORWARD-TSN ok")
+	vassert(a.peerLastTSN() == cum+uint32(nfrag), "the cumulative point moves over the skipped TSN and on over what was already received")
+	vassert(vDeliver(a, m.chunks[nfrag-1]) == nil, "DATA ok")
+	s := a.streams[5]
+	vassert(s != nil, "stream exists")
+	if s == nil {
+		return
+	}
+	buf := make([]byte, 8)
+	n, ppi, err := s.reassemblyQueue.read(buf)
+	vassert(err == nil && n == nfrag && vBytesEq(buf[:n], m.bytes) && ppi == PayloadTypeWebRTCString, "the message next to the skipped TSN is delivered intact")
 	vcover("end")
 }
